@@ -1,6 +1,9 @@
 """C03 - see properties.jsonl; shared machinery in lib/verdicts.py."""
+import rendered
 import verdicts
 
 
 def run(ck):
     verdicts.check(ck, "C03", ["AsModel.Theorems.C03"])
+    ck.build_harness("rt")
+    rendered.run(ck, "C03")
